@@ -21,7 +21,7 @@ def DATE(
     https://support.office.com/en-us/article/
         date-function-e36c0c8c-4104-49da-ab83-82328b832349
     """
-    if not (0 < year < 9999):
+    if not (0 < year <= 9999):
         raise xlerrors.NumExcelError(
             f'Year must be between 1 and 9999, got {year}')
 
